@@ -4,7 +4,7 @@
    correspondence, over generated statements of every kind, the shipped corpora and all dialects. *)
 From Coq Require Import List NArith ZArith Bool String Ascii Lia.
 Require Import Base.Common Gen.LexTable Lex.Model Cur.Model Tree.Value Tree.Canon Gen.Schema Gen.Static Parse.Prim Parse.Model
-               Parse.Entry Expr.Spec Expr.Proofs Print.Model Print.Proofs.
+               Parse.Entry Expr.Spec Expr.Proofs Print.Model Print.Proofs Print.Total.
 Import ListNotations.
 Open Scope string_scope.
 Open Scope N_scope.
@@ -20,6 +20,16 @@ Proof. exact operand_rule. Qed.
    levels) is the documented level -- the same table the parser theorems of C02 use *)
 Theorem C01_printer_level_documented_partial : forall e, expression_level (embed e) = N.of_nat (level e).
 Proof. exact printer_level_documented. Qed.
+
+(* 3. Printing is total: on EVERY tree (not only parser output) and in every dialect the printer model ends in text or in one of the printer's own
+   errors -- never in its own out-of-budget outcome -- as soon as the recursion budget exceeds the depth of the tree by 4; the entry point `print`
+   budgets twice the depth of its argument and is adequate whenever filling in omitted default fields does not more than double the depth
+   (Print/Total.v: every recursive call goes to a field value, an element of a tuple field, a UNION branch with its WITH clause emptied, or an
+   operator node held by the class, which prints without recursion) *)
+Theorem C01_printer_total_partial : forall n d v, (vdepth v + 4 <= n)%nat -> print_fuel n d v <> Err OutOfFuel.
+Proof. exact print_fuel_total. Qed.
+Theorem C01_print_entry_total_partial : forall d v, (vdepth (canon v) <= 2 * vdepth v)%nat -> print d v <> Err OutOfFuel.
+Proof. exact print_total. Qed.
 
 (* non-vacuity / fixed point on a concrete statement with grouping, an alias, a join, IN, LIMIT (model, MySQL) *)
 Example C01_roundtrip_example :
@@ -37,4 +47,6 @@ Proof. vm_compute. split; reflexivity. Qed.
 
 Print Assumptions C01_operand_bracketing_partial.
 Print Assumptions C01_printer_level_documented_partial.
+Print Assumptions C01_printer_total_partial.
+Print Assumptions C01_print_entry_total_partial.
 Print Assumptions C01_roundtrip_example.
